@@ -12,7 +12,7 @@ if p.exists():
             sweep[row[0]] = row
 NOTES = json.loads((ROOT / "notes.json").read_text()) if (ROOT / "notes.json").exists() else {}
 rows = []
-for d in sorted(x for x in ROOT.iterdir() if x.is_dir()):
+for d in sorted(x for x in ROOT.iterdir() if x.is_dir() and (x / "meta.json").exists()):
     m = json.loads((d / "meta.json").read_text())
     r = sweep.get(d.name)
     if r:
